@@ -29,6 +29,10 @@ c2c2803 — `build(authority=…)` runs the NFKC screen on a non-ASCII authority
 question to the `unicodedata` oracle); e21485a — `build` lower-cases the scheme (a non-ASCII scheme asks the
 `str.lower` oracle).  Known finding of this property: F-C19-encoded-str (`C19_headline_str_total_fails_for_encoded`,
 `…_fails_for_encoded_authority`, `C19_headline_str_total_encoded_iff`).
+
+Continued in C19HeadlineMore3.lean (PART A, MODEL-LEVEL: the Python-level type gates over YarlModel/Dyn.lean — wrong-typed
+arguments raise TypeError, the entry points without a type gate — GAPS 1; PART B: exception discipline and printability
+over `ReachE`, the closure of ALL entry points incl. encoded=True — GAPS 4).
 -/
 namespace Yarl
 open ErrLemmas NetlocLemmas StrTotal EagerLemmas
@@ -374,11 +378,43 @@ example : (QuoteW.quoteCW 2 Gen.PATH_QUOTER.tabC (fun i => i == 1) "a b".toStr).
 
 /-
 GAPS:
- 1. "Given arguments of the documented types": the model's argument types ARE the documented types (Str,
-    Option Str, Option Int + `kind` tag, QArg with `.other`/`.bytes`); wrong-type arguments exist only where
+ 1. "Given arguments of the documented types": the TYPED model's argument types ARE the documented types (Str,
+    Option Str, Option Int + `kind` tag, QArg with `.other`/`.bytes`); in it wrong-type arguments exist only where
     the model has a tag for them (port: bool / non-int; query: bytes / other / bool, None, other VALUES).
-    TypeError for a non-str scheme/user/host/path/fragment, a non-URL `join` argument, non-str query KEYS etc.
-    is NOT modelled: no theorem.
+    TypeError for a non-str scheme/user/host/fragment/name/suffix, a non-URL `join` argument, non-str query KEYS —
+    PARTLY CLOSED, MODEL-LEVEL, by C19_dyn_errors_allowed, C19_dyn_kw_errors_allowed, C19_dyn_type_errors,
+    C19_dyn_new_type_errors, C19_dyn_type_error_instances, C19_dyn_agrees_on_typed, C19_dyn_str_subclass (C19Dyn.lean,
+    over YarlModel/Dyn.lean), see C19_headline_dyn_kinds_gated, C19_headline_dyn_kinds_kwargs,
+    C19_headline_dyn_type_errors, C19_headline_dyn_constructor_type_errors, C19_headline_dyn_type_error_instances,
+    C19_headline_dyn_agrees_on_typed (C19HeadlineMore3.lean).  Proved, about the Lean transcription `dyn…` of the
+    `isinstance` / `type(x) is …` tests at the head of the entry points, over the universe `PyObj` (none, bool, int, float,
+    str, str subclass, bytes, tuple, list, dict, URL, SplitResult, `object()`-like): the constructor, with_scheme,
+    with_user, with_password, with_host, with_port, with_fragment, with_name, with_suffix, join, `/`, with_query /
+    extend_query / update_query (positional and keyword form; non-str KEYS and wrong-typed values included) and the
+    ordering operators, handed ANY such object, return or raise ValueError / TypeError (or ask the oracle of the typed
+    function) — never anything else; EXACTLY which objects get the TypeError (an `iff` per entry point, for every
+    receiver, so the type check comes first); on str / None / int / URL arguments the dynamic entry point IS the typed
+    function (definitional), so the typed theorems of this file transfer.  "MODEL-LEVEL" means: YarlModel/Dyn.lean is a
+    hand transcription of Python-level dispatch; it is tied to CPython ONLY by the run-time probe table (the
+    `example … := by decide +kernel` rows at the end of C19Dyn.lean / C12Dyn.lean / C10Dyn.lean, recorded outcomes of the
+    real library on two receivers), NOT by proof — see item 6.
+    FALSE outside the documented types for the two entry points WITHOUT a type gate (model-level, each witness also a
+    probe row): `joinpath` on non-str arguments raises KeyError / AttributeError
+    (C19_headline_dyn_kinds_fails_for_joinpath_nonstr, from C19_dyn_joinpath_leaks), `with_path` on non-str arguments
+    RETURNS garbage objects or raises KeyError (C19_headline_dyn_kinds_fails_for_with_path_nonstr, from
+    C19_dyn_with_path_leaks) — not a violation of C19, whose text starts "Given arguments of the documented types"; the
+    strongest true statements are proved instead: C19_headline_dyn_joinpath (str arguments: the typed `_make_child`;
+    else the error of the first offending element; kind bound Allowed ∨ KeyError ∨ AttributeError),
+    C19_headline_dyn_joinpath_element_table, C19_headline_dyn_with_path_nonstr (never a URL of the model: TypeError,
+    KeyError or garbage), C19_headline_dyn_with_path_table (from C19_dyn_joinpath_strs / _nonstr / _errors,
+    C19_dyn_childArgErr_table, C19_dyn_with_path_nonstr, C19_dyn_with_path_table).
+    STILL OPEN (no dynamic entry point in Dyn.lean, no theorem): wrong-typed keyword arguments of `URL.build(…)`
+    (scheme / user / password / host / path / query_string / fragment / authority that are not str; only `port` and
+    `query` have tags in the typed model), the `names` of `without_query_params`, the `encoded` / `keep_query` /
+    `keep_fragment` flags, pickling / `__setstate__`, `bytes()` (`==` / `!=` with a non-URL are total in Dyn.lean — they
+    return a bool — and belong to C10: C10Dyn.lean);
+    objects outside `PyObj` (classes overriding `__str__`, `__eq__`, `__getitem__`, `__bool__`, `__int__` …, Mapping types
+    other than dict).
  2. `oracleMiss` is a third outcome in every kinds-theorem.  It stands for "the model was not told what
     idna / unicodedata / str.isdigit / str.lower return"; that those library calls raise only
     UnicodeError ⊂ ValueError (idna.IDNAError is a UnicodeError) — "including IDNA errors" — is an ASSUMPTION
@@ -388,7 +424,10 @@ GAPS:
     statement about Python.  The only modelled crash sites are the two tuple indexings (`parts[-1]`), proved
     unreachable; `human_quote` on a lone surrogate (UnicodeEncodeError, a ValueError) is modelled as
     valueError.  Accessors on a URL with an unsplittable stored authority (encoded=True) raise ValueError —
-    allowed, but arguably a "leak" at accessor time rather than at construction.
+    allowed, but arguably a "leak" at accessor time rather than at construction.  (Restated for every URL of the
+    closure of all entry points incl. encoded=True: C19_headline_reachE_kinds, C19HeadlineMore3.lean, from
+    C19_reachE_errors, C19ReachE.lean — a corollary of the kinds theorems above, which hold for ALL records.)
+    With wrong-typed arguments KeyError / AttributeError DO leak from `joinpath` / `with_path` (model-level): item 1.
  4. PARTLY CLOSED (narrowed) by C19_twin_str_total_iff + C09_no_prefill + C19_preencoded_str_total_iff (C19Ctor.lean,
     C09.lean), see C19_headline_str_total_encoded_iff: a result of build() (any `encoded`) or of URL(s, encoded=True)
     prints IF AND ONLY IF its stored authority splits.  The side condition `u.pre = none` of
@@ -408,6 +447,28 @@ GAPS:
     with_user / with_password / with_port / with_host, which need only an assumption on the IDNA answers
     (C19_headline_str_total_constructor_twin_rebuilders, which also gives the pickle twin under `GoodAuthority`).
     "turned into a string" is `str()`; `bytes(url)`/`repr` are not modelled (C01 gives ASCII-ness).
+    FURTHER NARROWED by C19_reachE_str_total_iff, C19_reachE_str_total_iff_cache_free, C19_reachE_printable_entry_iff,
+    C19_reachE_printable_ctor, C19_reachE_printable_step, C19_reachE_printable, C19_reachE_str_total_fails_for_encoded,
+    C19_reachE_printable_instance (C19ReachE.lean, over `ReachE` = the closure of ALL entry points of the model incl.
+    URL(s, encoded=True), build(encoded=True), with_path(encoded=True), joinpath(encoded=True), join; ReachE.lean), see
+    C19_headline_reachE_str_total_iff, C19_headline_reachE_printable_entry, C19_headline_reachE_printable_step,
+    C19_headline_reachE_str_total, C19_headline_reachE_str_total_fails_for_encoded,
+    C19_headline_reachE_str_total_instance (C19HeadlineMore3.lean).  Proved: (i) the `iff` above holds on the WHOLE
+    closure — a `ReachE` URL prints IFF it is itself a result of the auto-encoding constructor or its stored authority
+    splits; (ii) printability is INHERITED: if every ENTRY-POINT result (URL(s), URL(s, encoded=True), build in both
+    modes) in the history of a `ReachE` URL is `Printable` (= its authority splits + the cache shape the four
+    authority-rebuilding modifiers need; for the cache-free producers exactly "it prints" = "its stored authority
+    splits"; for URL(s) implied by `GoodAuthority`), then the URL is `Printable` and prints — through every modifier in
+    every `encoded` mode and `join`.  So what was said above about with_path / joinpath with encoded=True is now a
+    THEOREM: F-C19-encoded-str arises ONLY from an authority stored unvalidated by build(encoded=True) /
+    URL(s, encoded=True) (or from URL(s) under a hostile IDNA oracle), never from a modifier.  The clause itself stays
+    FALSE for encoded=True (witnesses inside `ReachE`: C19_headline_reachE_str_total_fails_for_encoded — the
+    unprintability is inherited by `.with_path('/p', encoded=True)`).  Hypotheses / limits: `ReachE` asks every text
+    argument to be a Python string and excludes the model artefact `UOp.joinRef`; the per-entry-point condition
+    `Printable` is a HYPOTHESIS (`ReachEN (Printable e)`), discharged from the inputs only for build(encoded=False)
+    [C19_headline_str_total_build, …_build_authority + C19_headline_reachE_printable_entry] and for URL(s) under
+    `GoodAuthority`; the witnesses and the non-vacuity instance are computed with the Python backend and empty oracle
+    tables.
  5. MEMORY CLAUSE — what is MODELLED: YarlModel/Writer.lean, a state machine for `_write_char` /
     `_release_writer` with an arbitrary fault oracle; proved for every buffer size: result is all-or-
     MemoryError, no leak / double free / free of the static buffer, no overflow, small outputs never fail.
@@ -431,5 +492,20 @@ GAPS:
     STILL ASSUMED / not modelled: (d) PyMem_Malloc / PyUnicode_DecodeASCII failure paths other than buffer growth
     (e.g. allocation of the result string, of the `_Unquoter`'s output list) are not modelled; (e) the pure-Python
     backend has no such clause.
+ 6. NEW (trusted base of item 1, C19HeadlineMore3.lean PART A).  YarlModel/Dyn.lean is a MODEL of Python-level dynamic
+    dispatch, written by hand from `yarl/_url.py` / `yarl/_query.py`; every `C19_headline_dyn_*` theorem is a statement
+    about that model.  Its reading conventions are ASSUMPTIONS (header of Dyn.lean): `.strSub` is a PLAIN str subclass
+    (nothing overridden), `.dict` a builtin dict, `.splitResult` a 5-field SplitResult of str, `.other` an
+    `object()`-like truthy instance without any special method, `mdPair` the C implementation of multidict 6.2 (the
+    pure-Python multidict raises TypeError where the model says ValueError for a pair of the wrong length).  The model is
+    compared with the real library only on the finite probe table (rows at the end of C19Dyn.lean, outcomes recorded by
+    a probe script on the receivers URL("http://h/p?a=1#f") and URL("/a"), evaluated in the model with the C backend
+    and empty oracle tables); agreement on all other objects / receivers is NOT proved.  `PathOut.garbage k` is the
+    model's name for "the call RETURNED an object the model has no value for".
+ 7. NEW (side conditions of item 4's `ReachE` theorems).  `ReachE` / `ReachEN` are closures over the entry points OF THE
+    MODEL (18 operations of `UOp`, the two encoded=True modifiers, `join`); `reachE_of_record` (ReachE.lean) shows that
+    EVERY cache-free record of five Python strings is in `ReachE`, so a statement over `ReachE` without a side condition
+    is a statement about arbitrary stored text — which is why C19_headline_reachE_str_total needs the hypothesis on the
+    entry-point results and C19_headline_reachE_kinds does not use `ReachE` at all.
 -/
 end Yarl
